@@ -130,3 +130,18 @@ contract(f'{MF}::Sight.__init__', tag='any-spelling', props=('C19',),
                    'implies(self.focal_plane == "SFP", is_quantity(scale_factor) and raw(self.scale_factor) == raw(scale_factor) '
                    'and raw(self.scale_factor) > 0)')],
          modifies=['self.*'] + DISPLAY_ONLY)
+
+# history: used before calibration / edited after use (no stale state may survive: C17 speaks of "the ammunition",
+# not of a freshly built one)
+SF = 'verif:contracts/specfn.py'
+contract(f'{SF}::velocity_after_use_then_calibration', props=('C17',),
+         params=dict(v0=Real(lo=100, hi=1500), t0=Real(lo=-40, hi=60), v1=Real(lo=100, hi=1500), t1=Real(lo=-40, hi=60),
+                     t_query=Real(lo=-40, hi=60)),
+         requires=[('second-measurement-differs-and-is-monotone', 'v1 != v0 and t1 != t0 and (v1 - v0) * (t1 - t0) > 0')],
+         ensures=[('an-ammunition-used-before-calibration-reproduces-the-second-measurement', 'raw(result) == v1')],
+         modifies=DISPLAY_ONLY)
+contract(f'{SF}::velocity_after_use_then_edit', props=('C17',),
+         params=dict(v0=Real(lo=100, hi=1500), t0=Real(lo=-40, hi=60), m0=Real(lo=0, hi=5), v0b=Real(lo=100, hi=1500),
+                     m1=Real(lo=0, hi=5), t_query=Real(lo=-40, hi=60)),
+         ensures=[('an-edited-ammunition-answers-like-a-fresh-one-with-the-same-data', 'raw(result[0]) == raw(result[1])')],
+         modifies=DISPLAY_ONLY)
